@@ -9,7 +9,7 @@
    (theorems.json). *)
 From Coq Require Import SpecFloat.
 Require Import Base Value Float PrintOptions ParseOptions Utf8 Reader Scan Num NumberOps Parser.
-Require Import RelFramework PositionProofs.
+Require Import RelFramework PositionProofs SourcesAgree.
 
 Theorem C19_from_trait_location : forall ro alpha fast std_parse k inp c l cl,
   from_trait ro alpha fast std_parse k inp = PErr (XErr (ESyntax c l cl)) -> in_bounds (bytes_in inp) l cl.
@@ -78,3 +78,52 @@ Proof.
   split; [eexists; vm_compute; reflexivity|]. split; vm_compute; reflexivity.
 Qed.
 Print Assumptions C19_truncation_is_eof_refuted.
+
+(* What a truncated input CAN fail with. If a stream (any events: bytes,
+   Interrupted results) parses as a single datum, then every prefix of it
+   either parses too or fails with an error of the EOF category - or with one
+   of four codes that check data read before the end: NumberOutOfRange (the
+   refutation above: that class is real), InvalidUnicodeCodePoint, ExpectedOctet
+   and RecursionLimitExceeded (these three cannot occur for a prefix of an
+   accepted text either - the whole would fail the same check - but showing
+   that needs the relation between the two runs' values, which this proof does
+   not keep). Never any of the other fifteen syntax codes: no ExpectedSomeIdent,
+   ExpectedSomeValue, InvalidEscape, InvalidNumber, InvalidSymbol,
+   InvalidCharacterConstant, TrailingCharacters, MismatchedParenthesis, ...
+   Proved by reading the prefix and the whole side by side (TruncProofs.v):
+   every function either fails on the whole, or returns the same on both, or the
+   prefix has run out - and from then on every function is shown to return a
+   value or an EOF-like error at the end of the input, site by site. *)
+Theorem C19_truncation_partial : forall ro alpha fast std_parse (pre rest : list event) v,
+  from_trait ro alpha fast std_parse SrcIo (pre ++ rest) = POk v ->
+  (exists v', from_trait ro alpha fast std_parse SrcIo pre = POk v') \/
+  (exists c l cl, from_trait ro alpha fast std_parse SrcIo pre = PErr (XErr (ESyntax c l cl)) /\
+     (classify_code c = CatEof \/ c = NumberOutOfRange \/ c = InvalidUnicodeCodePoint \/ c = ExpectedOctet \/ c = RecursionLimitExceeded)).
+Proof. exact truncation_partial. Qed.
+Print Assumptions C19_truncation_partial.
+
+Theorem C19_truncation_partial_datum : forall ro alpha fast std_parse (pre rest : list event) d,
+  datum_from_trait ro alpha fast std_parse SrcIo (pre ++ rest) = POk d ->
+  (exists d', datum_from_trait ro alpha fast std_parse SrcIo pre = POk d') \/
+  (exists c l cl, datum_from_trait ro alpha fast std_parse SrcIo pre = PErr (XErr (ESyntax c l cl)) /\
+     (classify_code c = CatEof \/ c = NumberOutOfRange \/ c = InvalidUnicodeCodePoint \/ c = ExpectedOctet \/ c = RecursionLimitExceeded)).
+Proof. exact truncation_partial_datum. Qed.
+Print Assumptions C19_truncation_partial_datum.
+
+Theorem C19_truncation_partial_slice : forall ro alpha fast std_parse (p s : bytes) v,
+  from_trait ro alpha fast std_parse SrcSlice (bytes_events (p ++ s)) = POk v ->
+  (exists v', from_trait ro alpha fast std_parse SrcSlice (bytes_events p) = POk v') \/
+  (exists c l cl, from_trait ro alpha fast std_parse SrcSlice (bytes_events p) = PErr (XErr (ESyntax c l cl)) /\
+     (classify_code c = CatEof \/ c = NumberOutOfRange \/ c = InvalidUnicodeCodePoint \/ c = ExpectedOctet \/ c = RecursionLimitExceeded)).
+Proof. exact truncation_partial_slice. Qed.
+Print Assumptions C19_truncation_partial_slice.
+
+(* premises are satisfiable, and both outcomes occur *)
+Example C19_truncation_nonvacuous :
+  let run txt := from_trait default_ro (fun _ => true) true dec_to_f64 SrcIo (bytes_events txt) in
+  run (s2b "(a #\space ""x\n"" 1.5e3)") = POk (vlist [Symbol (s2b "a"); Char 32; String [120; 10]; Number (Float (f64_of_bits 4654311885213007872))]) /\
+  run (s2b "(a #\sp") = PErr (XErr (ESyntax EofWhileParsingCharacterConstant 1 7)) /\
+  run (s2b "(a #\space ""x\") = PErr (XErr (ESyntax EofWhileParsingString 1 14)) /\
+  run (s2b "(a #\space ""x\n"" 1.5e") = PErr (XErr (ESyntax EofWhileParsingValue 1 21)) /\
+  run (s2b "(a #\space ""x\n"" 1.5") = PErr (XErr (ESyntax EofWhileParsingList 1 20)).
+Proof. cbv zeta. repeat split; vm_compute; reflexivity. Qed.
